@@ -274,6 +274,32 @@ func csvWriterReuse(c *Ctx) {
 				if isBufio(v.Type()) {
 					return true
 				}
+				// a parameter: the same must hold for the argument at every call site of this function
+				if prm, ok := v.(*ssa.Parameter); ok && depth < 3 {
+					pf := prm.Parent()
+					idx := -1
+					for i, q := range pf.Params {
+						if q == prm {
+							idx = i
+						}
+					}
+					sites, good := 0, 0
+					for _, g := range c.srcFuncs("interp") {
+						for _, gb := range g.Blocks {
+							for _, gi := range gb.Instrs {
+								if call, ok := gi.(ssa.CallInstruction); ok && call.Common().StaticCallee() == pf && idx >= 0 && idx < len(call.Common().Args) {
+									sites++
+									if okVal(call.Common().Args[idx], gb, depth+1) {
+										good++
+									}
+								}
+							}
+						}
+					}
+					if sites > 0 && sites == good {
+						return true
+					}
+				}
 				// an interface value: some successful assertion of it to *bufio.Writer holds on every path to `at`
 				refs := v.Referrers()
 				if refs == nil {
